@@ -93,23 +93,40 @@ enum Construct {
     Map,
     Filter,
     ForInDef3,
+    /// `for v in x: for w in <OTHER>:` - the exit happens in the inner loop over another iterable
+    NestedInnerOther(u8),
+    /// `for w in <OTHER>: for v in x:` - the container under test is iterated by the inner loop
+    NestedOuterOther(u8),
+    /// `for a in x: for b in <OTHER>: for c in x2:`
+    TripleMiddleOther(u8),
 }
 
-const CONSTRUCTS: [Construct; 13] = [
-    Construct::For,
-    Construct::NestedSame,
-    Construct::NestedSameAfterInner,
-    Construct::ListCompr,
-    Construct::ListComprInner,
-    Construct::ListComprIf,
-    Construct::DictCompr,
-    Construct::SortedKey,
-    Construct::MinKey,
-    Construct::MaxKey,
-    Construct::Map,
-    Construct::Filter,
-    Construct::ForInDef3,
-];
+/// Other iterables a loop of the nest may run over: literals of every kind, a constant call, a second mutable list.
+const OTHERS: [&str; 6] = ["(7, 8)", "[7, 8]", "range(2)", "other", "{7: 1, 8: 2}", "\"ab\".elems()"];
+
+fn constructs() -> Vec<Construct> {
+    let mut v = vec![
+        Construct::For,
+        Construct::NestedSame,
+        Construct::NestedSameAfterInner,
+        Construct::ListCompr,
+        Construct::ListComprInner,
+        Construct::ListComprIf,
+        Construct::DictCompr,
+        Construct::SortedKey,
+        Construct::MinKey,
+        Construct::MaxKey,
+        Construct::Map,
+        Construct::Filter,
+        Construct::ForInDef3,
+    ];
+    for i in 0..OTHERS.len() as u8 {
+        v.push(Construct::NestedInnerOther(i));
+        v.push(Construct::NestedOuterOther(i));
+        v.push(Construct::TripleMiddleOther(i));
+    }
+    v
+}
 
 #[derive(Clone, Copy, Debug, PartialEq)]
 enum Exit {
@@ -149,7 +166,7 @@ impl Entry {
         use Exit::*;
         match (self.construct, self.exit) {
             // break / continue only make sense in statement loops
-            (For | NestedSame | NestedSameAfterInner | ForInDef3, _) => true,
+            (For | NestedSame | NestedSameAfterInner | ForInDef3 | NestedInnerOther(_) | NestedOuterOther(_) | TripleMiddleOther(_), _) => true,
             (_, Break | Continue | Return) => false,
             _ => true,
         }
@@ -168,7 +185,7 @@ impl Entry {
         let (_, mbody) = self.kind.mutations()[self.mutation];
         let mut s = String::new();
         s.push_str(&format!("x = {}\n", self.kind.ctor()));
-        s.push_str("x2 = x\nouter = [x]\nres = []\nX0 = str(x)\n");
+        s.push_str("x2 = x\nouter = [x]\nother = [7, 8]\nres = []\nX0 = str(x)\n");
         s.push_str(&format!("def m(y):\n    {mbody}\n"));
         s.push_str(&format!("def m0():\n    y = x\n    {mbody}\n"));
         s.push_str(&format!("def mpost(y):\n    {}\n", self.kind.post()));
@@ -207,6 +224,18 @@ impl Entry {
                 let tail3 = tail.replace("        ", "                ");
                 format!("    for a in x:\n        for b in x2:\n            for c in outer[0]:\n                attempt(x)\n{tail3}")
             }
+            Construct::NestedInnerOther(o) => {
+                let tail2 = tail.replace("        ", "            ");
+                format!("    for v in x:\n        for w in {}:\n            attempt(x)\n{tail2}", OTHERS[o as usize])
+            }
+            Construct::NestedOuterOther(o) => {
+                let tail2 = tail.replace("        ", "            ");
+                format!("    for w in {}:\n        for v in x:\n            attempt(x)\n{tail2}", OTHERS[o as usize])
+            }
+            Construct::TripleMiddleOther(o) => {
+                let tail3 = tail.replace("        ", "                ");
+                format!("    for a in x:\n        for b in {}:\n            for c in x2:\n                attempt(x)\n{tail3}", OTHERS[o as usize])
+            }
             Construct::ListCompr => format!("    return [{cbn}(v) for v in x]\n"),
             Construct::ListComprInner => format!("    return [{cbn}(v) for a in [1, 2] for v in x]\n"),
             Construct::ListComprIf => format!("    return [v for v in x if {cbn}(v) != None]\n"),
@@ -239,7 +268,7 @@ impl Entry {
 fn all_entries() -> Vec<Entry> {
     let mut v = Vec::new();
     for kind in KINDS {
-        for construct in CONSTRUCTS {
+        for construct in constructs() {
             for mutation in 0..kind.mutations().len() {
                 for alias in ALIASES {
                     for exit in EXITS {
